@@ -454,6 +454,8 @@ func c02Store(p *Prog, r *Report) {
 	r.Rule("R10", "the comparator the merged list is sorted with is a lexicographic ascending order over the key values: smaller decides true, larger decides false, equal moves on to the next key, ties yield false (truth table over the three relations)")
 	comparatorRule(p, r, "R10")
 	mergeTruthTable(p, r, "R11")
+	selectorTruthTable(p, r, "R12")
+	hashKeyRule(p, r, "R13")
 	r.Rule("R8", "in FunctionData.UpdateData every store to the data field is either guarded by both filters being nil (replace path) or happens after the Updater.UpdateList call under its success (merge path)")
 	var fns []*ssa.Function
 	for _, f := range p.RepoFns("spine") {
